@@ -502,6 +502,10 @@ def binop(op, a, b):
             return T("raise", ("ZeroDivisionError",), INT)
         except (TypeError, ValueError):
             pass
+    if op == "band" and (a == 1 or b == 1) and not (a == 1 and b == 1):
+        other = b if a == 1 else a
+        if isinstance(other, T) and tyof(other) in (INT, ANY):
+            return mod(other, 2)  # the lowest bit of an integer is its parity
     if op in ("band", "bor", "bxor"):
         x, y = sorted([a, b], key=sortkey)
         return T(op, (x, y), INT)
